@@ -39,6 +39,10 @@ NamedTD(id) ==
     [] id = "RecTree" -> TStruct(<<Fld("Name", <<78, 97, 109, 101>>, TScalar("string")),
                                    Fld("Kids", <<75, 105, 100, 115>>, TSlice(TNamed("RecTree"))),
                                    FldO("Idx", <<73, 100, 120>>, <<"omitempty">>, TMap(TPtr(TNamed("RecTree"))))>>)
+    \* named slice / map types that implement Folder by value (fold as "L<len>" / "M<len>")
+    [] id = "FoldSl" -> TSlice(TScalar("string"))
+    [] id = "FoldMp" -> TMap(TScalar("int"))
+    [] id = "UKeys" -> TStruct(<<Fld("Keys", <<75, 101, 121, 115>>, TSlice(TScalar("string")))>>)
     \* maps whose key is a named string type (element handled via reflection / typed fast path)
     [] id = "KMap" -> TMap(TNamed("ZeroT"))
     [] id = "KMapI" -> TMap(TScalar("int"))
@@ -65,7 +69,7 @@ VObj(members, unord) == [k |-> "obj", v |-> members, unord |-> unord]
 IsLeafV(x) == x.k \notin {"arr", "obj"}
 DigitStr(c) == <<70, 48 + c[9]>>          \* FoldT folds as "F<A>" (A in 0..9)
 RegStr(c) == <<82, 48 + c[9]>>            \* RegT: registered folder, folds as "R<A>"
-StrFolderIds == {"FoldT", "RegT"}         \* custom folders emitting a string
+StrFolderIds == {"FoldT", "RegT", "FoldSl", "FoldMp"}         \* custom folders emitting a string
 ObjFolderIds == {"FoldObj", "RegObj"}     \* custom folders emitting an object {fa|ra: A}
 ObjFolderKey(id) == IF id = "FoldObj" THEN <<102, 97>> ELSE <<114, 97>>
 
@@ -137,7 +141,7 @@ HasDupNames(T) == LET n == MemberNames(T) IN \E a, b \in 1..Len(n) : a # b /\ n[
 RECURSIVE HasCustomFolder(_, _), UnfoldMayRefuse(_, _)
 HasCustomFolder(T, depth) ==
   IF depth = 0 THEN FALSE
-  ELSE CASE T.k = "named" -> T.id \in {"FoldT", "FoldObj", "RegT", "RegObj"}
+  ELSE CASE T.k = "named" -> T.id \in {"FoldT", "FoldObj", "RegT", "RegObj", "FoldSl", "FoldMp"}
          [] T.k \in {"ptr", "slice", "array", "map"} -> HasCustomFolder(T.e[1], depth - 1)
          [] T.k = "struct" -> \E j \in 1..Len(T.f) : HasCustomFolder(T.f[j].t, depth - 1)
          [] OTHER -> FALSE
@@ -175,6 +179,8 @@ FoldSem(T0, v, look) ==
   LET T == Resolve(T0) IN
   CASE T0.k = "named" /\ T0.id = "FoldT" -> EvStr(DigitStr(v.f[1].v))
     [] T0.k = "named" /\ T0.id = "RegT" -> EvStr(RegStr(v.f[1].v))
+    [] T0.k = "named" /\ T0.id = "FoldSl" -> EvStr(<<76, 48 + Len(v.e)>>)
+    [] T0.k = "named" /\ T0.id = "FoldMp" -> EvStr(<<77, 48 + Len(v.m)>>)
     [] T0.k = "named" /\ T0.id \in ObjFolderIds -> VObj(<<[key |-> ObjFolderKey(T0.id), val |-> v.f[1]]>>, FALSE)
     [] T.k \in ScalarKinds -> v
     [] T.k = "ptr" -> IF v.nil THEN EvNil ELSE FoldSem(T.e[1], v.e[1], look)
@@ -313,7 +319,7 @@ ZeroPlain(T0) ==
 (*          by ten (small v only: no 64-bit multiplication in the model)    *)
 (* For every other stream value the user code returns an error or converts *)
 (* without a range check: unspecified.                                     *)
-UserUnfoldIds == {"UStr", "UI64", "UPt", "UExp", "UObj", "UProc", "USelf"}
+UserUnfoldIds == {"UStr", "UI64", "UPt", "UExp", "UObj", "UProc", "USelf", "UKeys"}
 IsI64(sv) == sv.k = "int" /\ FitsKind(sv.v, "int64")
 UFld(j, val) == [key |-> <<j>>, val |-> val]
 MemberIdx(sv, name) == {j \in 1..Len(sv.v) : sv.v[j].key = name}
@@ -333,6 +339,9 @@ ExpUser(id, sv) ==
     [] id = "UProc" ->
          IF sv.k = "arr" /\ Len(sv.v) < 256 /\ \A j \in 1..Len(sv.v) : IsI64(sv.v[j])
          THEN VObj(<<UFld(1, EvInt(CUint(<<Len(sv.v)>>))), UFld(2, IF Len(sv.v) = 0 THEN EvInt(CZero) ELSE sv.v[1])>>, FALSE) ELSE Unspec
+    [] id = "UKeys" ->        \* a state that keeps the member names it is handed, in order; scalar values are ignored
+         IF sv.k = "obj" /\ \A j \in 1..Len(sv.v) : IsLeafV(sv.v[j].val)
+         THEN VObj(<<UFld(1, VArr([j \in 1..Len(sv.v) |-> EvStr(sv.v[j].key)]))>>, FALSE) ELSE Unspec
     [] id = "USelf" ->
          LET nn == IF sv.k = "obj" THEN MemberIdx(sv, <<110>>) ELSE {} IN
          IF sv.k = "obj" /\ Len(sv.v) = 1 /\ Cardinality(nn) = 1 /\ sv.v[1].val.k = "int" /\ sv.v[1].val.v[1] = 0
@@ -344,7 +353,7 @@ RECURSIVE Exp(_, _, _), ExpFields(_, _, _)
 ZeroLeafOld(old) == old
 Exp(T0, old, sv) ==
   LET T == Resolve(T0) IN
-  CASE T0.k = "named" /\ T0.id \in {"FoldT", "FoldObj", "ZeroT", "ZeroP", "RegT", "RegObj"} -> Unspec
+  CASE T0.k = "named" /\ T0.id \in {"FoldT", "FoldObj", "ZeroT", "ZeroP", "RegT", "RegObj", "FoldSl", "FoldMp"} -> Unspec
     [] T0.k = "named" /\ T0.id \in UserUnfoldIds -> ExpUser(T0.id, sv)
     [] T.k = "iface" -> sv                                   \* generic data: the stream's value itself
     [] T.k = "ptr" -> IF sv.k = "nil" THEN EvNil
